@@ -91,6 +91,22 @@ def open_findings(prop):
     return [f for f in load_findings() if f.get('property') == prop and f.get('status') == 'open']
 
 
+def package_fingerprint():
+    """AST hash of every module of the package under REPO (comments / layout do not count)"""
+    import ast
+    import hashlib
+    out = {}
+    base = os.path.join(REPO, 'hszinc')
+    for fn in sorted(os.listdir(base)) if os.path.isdir(base) else []:
+        if fn.endswith('.py'):
+            try:
+                with open(os.path.join(base, fn), encoding='utf-8') as f:
+                    out[fn] = hashlib.sha256(ast.dump(ast.parse(f.read())).encode()).hexdigest()[:16]
+            except Exception as e:
+                out[fn] = 'unparsable: %s' % type(e).__name__
+    return out
+
+
 def load_baseline(prop):
     p = os.path.join(ROOT, 'baseline', '%s.json' % prop)
     if os.path.exists(p):
@@ -209,9 +225,21 @@ def main(argv=None):
     units = {}
     by_backend = {}
     solver_time = 0.0
+    pkg = package_fingerprint()
+    base_pkg = (baseline or {}).get('package')
     for r in results:
         if r.get('error'):
-            errors.append('%s: %s' % (r['task'], r['error'][-1200:]))
+            changed_files = sorted(k for k in set(pkg) | set(base_pkg or {}) if (base_pkg or {}).get(k) != pkg.get(k))
+            ran_before = any(k.startswith(r['task'] + '/') for k in (baseline or {}).get('obligations', {}))
+            if base_pkg is not None and changed_files and ran_before:
+                # the task ran to completion on the baseline tree and cannot be carried out on the changed source: every obligation of the
+                # task is undischarged (reported as one), not a fault of the checker
+                last = [ln for ln in r['error'].strip().splitlines() if ln.strip()][-1]
+                r['obligations'] = list(r.get('obligations', [])) + [{
+                    'name': 'task-completes-on-the-changed-source', 'status': 'unknown', 'backend': 'hv', 'time_s': 0.0, 'fp': 'crash', 'model': None, 'kind': 'subset', 'witness': None,
+                    'reason': 'the obligations of task %s could not be generated from the changed source (%s): %s' % (r['task'], ', '.join(changed_files), last[:300])}]
+            else:
+                errors.append('%s: %s' % (r['task'], r['error'][-1200:]))
         for u in r.get('units', []):
             units[u['function']] = u
         for o in r['obligations']:
@@ -358,7 +386,7 @@ def main(argv=None):
         else:
             os.makedirs(os.path.join(ROOT, 'baseline'), exist_ok=True)
             with open(os.path.join(ROOT, 'baseline', '%s.json' % prop), 'w') as f:
-                json.dump({'units': {k: u['ast_sha'] for k, u in units.items()}, 'n_obligations': n_ob,
+                json.dump({'units': {k: u['ast_sha'] for k, u in units.items()}, 'n_obligations': n_ob, 'package': pkg,
                            'obligations': {o['id']: {'fp': o.get('fp'), 'status': o['status']} for o in obligations}}, f, indent=1, sort_keys=True)
             print('baseline updated: %d obligations, %d units' % (n_ob, len(units)))
 
